@@ -485,7 +485,7 @@ func genParserRuns(seed int64, n int, tier string) []Script {
 		op["pntl"] = pickInt(r, 0, 0, 0, 50, 100)
 		op["pnil"] = 0
 		ops := []map[string]any{op}
-		if r.Intn(3) == 0 {
+		if r.Intn(3) == 0 || (kind == "BUP" && r.Intn(2) == 0) {
 			// a used parser: warm up with a short run of the same byte, then
 			// Reset (nil, or with the first part of the run)
 			warm := make([]byte, 3+r.Intn(60))
@@ -590,7 +590,7 @@ func genParserNTLFuture(seed int64, n int, tier string) []Script {
 	for i := 0; i < n; i++ {
 		kind := kinds[i%len(kinds)]
 		P := 5 + r.Intn(8)
-		W := pickInt(r, 1, 2, 3, 4, P-1, 1<<32-8, 1<<32-8)
+		W := pickInt(r, 1, 2, 3, 4, P-1, 1<<32-8, 1<<32-8, 1<<32-8)
 		blk := 6 + 2*P + 10 + r.Intn(12)
 		B := pickInt(r, 3*blk, 4*blk+5, 200)
 		cfg := map[string]any{"kind": kind, "BufferSize": B, "ShrinkSize": pickInt(r, 0, B/2), "WindowSize": W, "BlockSize": blk}
@@ -707,7 +707,138 @@ func genParserGSAPBig(seed int64, n int, tier string) []Script {
 	return out
 }
 
+// genParserAlias: a block that is reused across Parse calls must not alias
+// the parser's buffer. First a literal-only block (data without any repeated
+// gram), then - into the same Block - a block with new literals L and a
+// match, then data that continues L with bytes of the first write: if the
+// second block's literals were written into the buffer through an aliasing
+// slice, the longest match for the third write lies in the overwritten
+// region and the emitted block does not expand to the input any more.
+func genParserAlias(seed int64, n int, tier string) []Script {
+	r := rand.New(rand.NewSource(seed))
+	var out []Script
+	for i := 0; i < n; i++ {
+		kind := parserKinds[i%len(parserKinds)]
+		la := 16 + r.Intn(24)
+		A := make([]byte, la)
+		for j := range A {
+			A[j] = byte(40 + j) // all bytes distinct: no repeated gram
+		}
+		ll := 3 + r.Intn(5)
+		L := make([]byte, ll)
+		for j := range L {
+			L[j] = byte(200 + j)
+		}
+		k1 := 2 + r.Intn(4)
+		m1 := 6 + r.Intn(6)
+		d2 := append(append([]byte{}, L...), A[k1:k1+m1]...)
+		d3 := append(append([]byte{}, L...), A[ll:minI(la, ll+8+r.Intn(6))]...)
+		d3 = append(d3, byte(250))
+		B := la + len(d2) + len(d3) + 8 + r.Intn(40)
+		cfg := map[string]any{"kind": kind, "BufferSize": B, "ShrinkSize": pickInt(r, 0, B/2), "WindowSize": pickInt(r, B, 2*B, 0),
+			"BlockSize": pickInt(r, B, 64, 0)}
+		switch kind {
+		case "HP", "BHP":
+			cfg["InputLen"], cfg["HashBits"] = pickInt(r, 2, 3, 4), pickInt(r, 8, 12)
+		case "BUP":
+			cfg["InputLen"], cfg["HashBits"], cfg["BucketSize"] = pickInt(r, 2, 3, 4), pickInt(r, 8, 10), pickInt(r, 2, 4)
+		case "DHP", "BDHP":
+			cfg["InputLen1"], cfg["InputLen2"] = 2, 3+r.Intn(3)
+			cfg["HashBits1"], cfg["HashBits2"] = pickInt(r, 8, 12), pickInt(r, 8, 12)
+		default:
+			cfg["MinMatchLen"] = pickInt(r, 2, 3, 4)
+		}
+		ops := []map[string]any{
+			{"op": "write", "p": B2(A)}, {"op": "parse", "flags": 0, "reuse": true},
+			{"op": "write", "p": B2(d2)}, {"op": "parse", "flags": 0, "reuse": true},
+			{"op": "write", "p": B2(d3)}, {"op": "parse", "flags": 0, "reuse": true},
+			{"op": "parse", "flags": 0, "reuse": true},
+		}
+		out = append(out, Script{Tid: "parser-alias-" + itoa(seed) + "-" + itoa(int64(i)), Comp: "parser", Cfg: cfg,
+			Ops: ops, Tags: []string{"go", kind, "alias"}})
+	}
+	return out
+}
+
+// slotOf replicates the slot function of the hash parsers (hash.go:
+// hashValue of the masked gram) so that the generator can construct grams
+// that share a slot. If the code's function ever differs the constructions
+// merely lose their point; nothing is judged with it.
+func slotOf(g []byte, hashBits int) uint32 {
+	var x uint64
+	for i, b := range g {
+		x |= uint64(b) << (8 * uint(i))
+	}
+	return uint32((x * 9920624304325388887) >> (64 - uint(hashBits)))
+}
+
+// genParserNTLCollide: after Parse(blk, NoTrailingLiterals) the dictionary
+// holds entries for positions AHEAD of the parse position (the re-offered
+// trailing literals). The construction makes the slot of a gram A point to
+// its LATER occurrence when the earlier one is parsed again: A, filler, a
+// gram B in the same slot (evicts A, so that the second A is not matched in
+// the first pass), filler, A, filler. A parser that accepts the entry emits
+// a match with a source in the future (non-positive distance). Windows from
+// 1 to the maximum 2^32-8.
+func genParserNTLCollide(seed int64, n int, tier string) []Script {
+	r := rand.New(rand.NewSource(seed))
+	kinds := []string{"HP", "BHP", "BUP"}
+	var out []Script
+	for i := 0; i < n; i++ {
+		kind := kinds[i%len(kinds)]
+		il := pickInt(r, 2, 3, 4)
+		hb := pickInt(r, 6, 8, 10, 12)
+		A := make([]byte, il)
+		for j := range A {
+			A[j] = byte('a' + r.Intn(20))
+		}
+		var Bg []byte
+		for tries := 0; tries < 200000 && Bg == nil; tries++ {
+			g := make([]byte, il)
+			for j := range g {
+				g[j] = byte(0x80 + r.Intn(0x70))
+			}
+			if slotOf(g, hb) == slotOf(A, hb) {
+				Bg = g
+			}
+		}
+		if Bg == nil {
+			Bg = []byte{0x81, 0x82, 0x83, 0x84}[:il]
+		}
+		filler := func(k int, base byte) []byte {
+			f := make([]byte, k)
+			for j := range f {
+				f[j] = base + byte(j)
+			}
+			return f
+		}
+		var data []byte
+		data = append(data, "QRSTQRST"...)
+		p1 := len(data)
+		data = append(data, A...)
+		data = append(data, filler(6+r.Intn(8), '0')...)
+		data = append(data, Bg...)
+		data = append(data, filler(6+r.Intn(8), 'A')...)
+		data = append(data, A...)
+		data = append(data, filler(4+r.Intn(10), 'K')...)
+		_ = p1
+		B := len(data) + r.Intn(60)
+		cfg := map[string]any{"kind": kind, "BufferSize": B, "ShrinkSize": 0, "BlockSize": pickInt(r, B, 0),
+			"WindowSize": pickInt(r, 1<<32-8, 1<<32-8, 1<<31, 1<<31-1, B, 8), "InputLen": il, "HashBits": hb}
+		if kind == "BUP" {
+			cfg["BucketSize"] = pickInt(r, 1, 2)
+		}
+		ops := []map[string]any{{"op": "write", "p": B2(data)}, {"op": "parse", "flags": 1}, {"op": "parse", "flags": 0},
+			{"op": "parse", "flags": 0}}
+		out = append(out, Script{Tid: "parser-ntlcollide-" + itoa(seed) + "-" + itoa(int64(i)), Comp: "parser", Cfg: cfg,
+			Ops: ops, Tags: []string{"go", kind, "ntlfuture"}})
+	}
+	return out
+}
+
 func init() {
+	generators["parser-ntlcollide"] = genParserNTLCollide
+	generators["parser-alias"] = genParserAlias
 	generators["parser-gsap-big"] = genParserGSAPBig
 	generators["parser-osap-long"] = genParserOSAPLong
 	generators["parser-collide"] = genParserCollide
